@@ -40,6 +40,7 @@ const P_MEMORYLESS_COMPARISONS: usize = 15;
 const P_WINDOW_EDGE_ZONE: usize = 16;
 const P_SPARSE_SCALE_CONVERSIONS: usize = 17;
 const P_NOTE_CHANGED: usize = 18;
+const P_SWEEP_TRACES: usize = 19;
 
 const SEMI: f64 = 1.0 / 12.0;
 const HYST: f64 = 1.0 / 120.0;
@@ -138,6 +139,7 @@ impl Engine for QuantEngine {
         "conversions_in_hysteresis_edge_zone",
         "conversions_on_sparse_scale",
         "note_changed",
+        "sweep_traces",
     ];
     const NFAULT: usize = 8;
     const COMPONENTS: &'static [(&'static str, &'static str)] = &[
@@ -417,8 +419,12 @@ impl Engine for QuantEngine {
 
     fn finish(_ex: &mut Exec, _ctx: &mut Ctx) {}
 
-    fn run(rng: &mut Rng, prof: &Profile, _run: u64, sink: &mut Sink<Self>) {
-        random_run(rng, prof, sink);
+    fn run(rng: &mut Rng, prof: &Profile, run: u64, sink: &mut Sink<Self>) {
+        if !prof.chaos && run % 16 == 15 {
+            sweep_run(rng, sink);
+        } else {
+            random_run(rng, prof, sink);
+        }
     }
 
     fn cfg_json(_c: &Cfg) -> J {
@@ -724,3 +730,55 @@ fn random_run(rng: &mut Rng, prof: &Profile, sink: &mut Sink<QuantEngine>) {
     }
     sink.end(t);
 }
+
+/// single-fault sweep: a seeded short input walk on a seeded scale; one scale edit (every single pitch class
+/// forbidden / allowed, or a power cycle) injected at every position of the walk
+fn sweep_run(rng: &mut Rng, sink: &mut Sink<QuantEngine>) {
+    let keep: Vec<u8> = {
+        let n = rng.range(1, 12);
+        let mut v: Vec<u8> = (0..12).collect();
+        for i in (1..12).rev() {
+            let j = rng.usize(i + 1);
+            v.swap(i, j);
+        }
+        v.truncate(n as usize);
+        v
+    };
+    let forbidden: Vec<u8> = (0..12u8).filter(|n| !keep.contains(n)).collect();
+    let mut v = rng.uniform(0.0, 9.5);
+    let step = rng.log_uniform(1e-3, 0.06) * if rng.chance(0.3) { -1.0 } else { 1.0 };
+    let walk: Vec<f32> = (0..rng.range(4, 9))
+        .map(|_| {
+            v += step * rng.uniform(0.0, 2.0);
+            v as f32
+        })
+        .collect();
+    for pos in 0..=walk.len() {
+        for edit in 0..25u8 {
+            let mut t = sink.begin(Cfg {});
+            t.ctx.probe(P_SWEEP_TRACES);
+            if !forbidden.is_empty() {
+                t.push(Ev::Forbid(forbidden.clone()));
+            }
+            for (i, x) in walk.iter().enumerate() {
+                if i == pos {
+                    inject(&mut t, edit);
+                }
+                t.push(Ev::Convert(x.to_bits()));
+            }
+            if pos == walk.len() {
+                inject(&mut t, edit);
+                t.push(Ev::Convert(walk[walk.len() - 1].to_bits()));
+            }
+            sink.end(t);
+        }
+    }
+    fn inject(t: &mut Trace<QuantEngine>, edit: u8) {
+        match edit {
+            0..=11 => t.push(Ev::Forbid(vec![edit])),
+            12..=23 => t.push(Ev::Allow(vec![edit - 12])),
+            _ => t.push(Ev::Restart),
+        }
+    }
+}
+
